@@ -252,10 +252,23 @@ macro_rules! float_conv {
             /// representable value.
             #[inline(always)]
             pub fn $from(x: $ty) -> Self {
-                // When x is positive: 1.0 - 0.5 =  0.5
-                // When x is negative: 0.0 - 0.5 = -0.5
-                let frac = (x.is_sign_positive() as u8 as $ty) - 0.5;
-                Self((x * Self::ONE.0 as $ty + frac) as _)
+                // Round half away from zero without `round()` (not available in
+                // core): truncate toward zero (the cast saturates and maps NaN
+                // to 0), then step one unit away from zero if the remainder,
+                // which is computed exactly, is at least one half.
+                //
+                // Adding +-0.5 before the cast instead is off by one for the
+                // largest float below one half: that sum rounds up to 1.0.
+                let scaled = x * Self::ONE.0 as $ty;
+                let truncated = Self(scaled as _);
+                let rem = scaled - truncated.0 as $ty;
+                if rem >= 0.5 {
+                    Self(truncated.0.saturating_add(1))
+                } else if rem <= -0.5 {
+                    Self(truncated.0.saturating_sub(1))
+                } else {
+                    truncated
+                }
             }
 
             #[doc = concat!("Returns the value as an ", stringify!($ty), ".")]
@@ -460,6 +473,28 @@ mod tests {
             // Test negated values as well for good measure
             assert_eq!(Fixed::from_f64(-input), with_round_intrinsic(-input));
         }
+    }
+
+    // The largest float below one half must round to zero, not to one
+    // (`x + 0.5` rounds up to exactly 1.0 in floating point).
+    #[test]
+    fn from_float_just_below_half() {
+        let below_half_f32 = f32::from_bits(0.5f32.to_bits() - 1);
+        let below_half_f64 = f64::from_bits(0.5f64.to_bits() - 1);
+        assert_eq!(F2Dot14::from_f32(below_half_f32 / 16384.0), F2Dot14(0));
+        assert_eq!(F2Dot14::from_f32(-below_half_f32 / 16384.0), F2Dot14(0));
+        assert_eq!(F2Dot14::from_f32(0.5 / 16384.0), F2Dot14(1));
+        assert_eq!(F2Dot14::from_f32(-0.5 / 16384.0), F2Dot14(-1));
+        assert_eq!(Fixed::from_f64(below_half_f64 / 65536.0), Fixed(0));
+        assert_eq!(Fixed::from_f64(-below_half_f64 / 65536.0), Fixed(0));
+        assert_eq!(Fixed::from_f64(0.5 / 65536.0), Fixed(1));
+        assert_eq!(F26Dot6::from_f64(-0.5 / 64.0), F26Dot6(-1));
+        // saturation and NaN are unchanged
+        assert_eq!(F2Dot14::from_f32(2.0), F2Dot14::MAX);
+        assert_eq!(F2Dot14::from_f32(-3.0), F2Dot14::MIN);
+        assert_eq!(F2Dot14::from_f32(f32::NAN), F2Dot14::ZERO);
+        assert_eq!(Fixed::from_f64(f64::INFINITY), Fixed::MAX);
+        assert_eq!(Fixed::from_f64(f64::NEG_INFINITY), Fixed::MIN);
     }
 
     #[test]
